@@ -153,6 +153,10 @@ func runC20(t *verifsim.Tape, cfg engine.Config) *engine.Outcome {
 	if t.Draw("cold-pattern", 2) == 0 {
 		codePattern = fmt.Sprintf("(?:%x){0}", t.Sub("marker")) + c20CodePattern
 	}
+	// an error value the service shares between requests (a package-level sentinel built as a struct literal, so
+	// without an identifier): whatever turns it into a response must leave it alone
+	sentinel := &goa.ServiceError{Name: "busy", Message: "shared sentinel", Temporary: true}
+	sentinelBefore := fmt.Sprintf("%+v", *sentinel)
 	handle := func(wild bool) http.HandlerFunc {
 		return func(w http.ResponseWriter, r *http.Request) {
 			ctx := context.WithValue(r.Context(), goahttp.AcceptTypeKey, r.Header.Get("Accept"))
@@ -175,6 +179,12 @@ func runC20(t *verifsim.Tape, cfg engine.Config) *engine.Outcome {
 			switch {
 			case strings.HasPrefix(body.Token, "declared-"):
 				_ = encErr(ctx, w, goa.PermanentError("conflict", "declared error for %s", body.Token))
+				return
+			case strings.HasPrefix(body.Token, "sentinel-"):
+				_ = encErr(ctx, w, sentinel)
+				return
+			case strings.HasPrefix(body.Token, "wrapped-"):
+				_ = encErr(ctx, w, fmt.Errorf("while serving %s: %w", body.Token, sentinel))
 				return
 			case strings.HasPrefix(body.Token, "plain-"):
 				_ = encErr(ctx, w, fmt.Errorf("plain failure for %s", body.Token))
@@ -217,7 +227,7 @@ func runC20(t *verifsim.Tape, cfg engine.Config) *engine.Outcome {
 		n := 1 + t.Draw("nreq", maxReq)
 		for k := 0; k < n; k++ {
 			q := c20req{Token: fmt.Sprintf("tok%d-%d", i, k), ID: fmt.Sprintf("id%d-%d", i, k), Accept: accepts[t.Draw("accept", len(accepts))], RID: fmt.Sprintf("rid%d-%d", i, k)}
-			q.Kind = []string{"ok", "ok", "ok", "wild", "invalid", "declared", "plain", "notfound", "badbody"}[t.Draw("kind", 9)]
+			q.Kind = []string{"ok", "ok", "ok", "wild", "invalid", "declared", "plain", "notfound", "badbody", "sentinel", "wrapped"}[t.Draw("kind", 11)]
 			switch q.Kind {
 			case "wild":
 				q.Rest = fmt.Sprintf("r%d/%d %%41", i, k)
@@ -225,6 +235,8 @@ func runC20(t *verifsim.Tape, cfg engine.Config) *engine.Outcome {
 				q.Token = "declared-" + q.Token
 			case "plain":
 				q.Token = "plain-" + q.Token
+			case "sentinel", "wrapped":
+				q.Token = q.Kind + "-" + q.Token
 			}
 			c.reqs = append(c.reqs, q)
 		}
@@ -355,7 +367,7 @@ func runC20(t *verifsim.Tape, cfg engine.Config) *engine.Outcome {
 				o.Violate("leak_content_type", "leak_content_type", "%s: response Content-Type %q (%s), own Accept asks for %s", where, r.ct, got, class)
 				continue
 			}
-			expStatus := map[string]int{"ok": 200, "wild": 200, "invalid": 400, "declared": 400, "plain": 500, "notfound": 404, "badbody": 400}[q.Kind]
+			expStatus := map[string]int{"ok": 200, "wild": 200, "invalid": 400, "declared": 400, "plain": 500, "notfound": 404, "badbody": 400, "sentinel": 503, "wrapped": 503}[q.Kind]
 			if r.status != expStatus {
 				o.Violate("wrong_status", "wrong_status:"+q.Kind, "%s: status %d, want %d; body %q", where, r.status, expStatus, clip(r.body))
 				continue
@@ -395,8 +407,8 @@ func runC20(t *verifsim.Tape, cfg engine.Config) *engine.Outcome {
 					}
 					errorIDs[er.ID] = where
 				}
-				wantName := map[string]string{"invalid": "invalid_pattern", "declared": "conflict", "plain": "fault", "notfound": "fault", "badbody": "decode_payload"}[q.Kind]
-				own := map[string]string{"invalid": fmt.Sprintf("bad code %d-%d", i, k), "declared": q.Token, "plain": q.Token, "notfound": "404", "badbody": ""}[q.Kind]
+				wantName := map[string]string{"invalid": "invalid_pattern", "declared": "conflict", "plain": "fault", "notfound": "fault", "badbody": "decode_payload", "sentinel": "busy", "wrapped": "busy"}[q.Kind]
+				own := map[string]string{"invalid": fmt.Sprintf("bad code %d-%d", i, k), "declared": q.Token, "plain": q.Token, "notfound": "404", "badbody": "", "sentinel": "shared sentinel", "wrapped": "shared sentinel"}[q.Kind]
 				if er.Name != wantName || !strings.Contains(er.Message, own) {
 					o.Violate("leak_error", "leak_error:"+q.Kind, "%s: error {name:%q message:%q}, want name %q and a message about %q", where, er.Name, er.Message, wantName, own)
 				}
@@ -405,6 +417,9 @@ func runC20(t *verifsim.Tape, cfg engine.Config) *engine.Outcome {
 				}
 			}
 		}
+	}
+	if now := fmt.Sprintf("%+v", *sentinel); now != sentinelBefore {
+		o.Violate("shared_error_mutated", "shared_error_mutated", "an error value the handlers share was modified while it was turned into responses: %s, was %s", now, sentinelBefore)
 	}
 	o.Features["tasks"] = nTasks
 	o.Features["requests"] = total
